@@ -638,6 +638,9 @@ class Exec:
             return VSet(mem, z3.IntVal(len(v.py)), ty.elem)
         if isinstance(ty, TInt) and isinstance(v, VBool): return VInt(z3.If(v.term, 1, 0))
         if isinstance(ty, TBool) and not isinstance(v, (VBool, VOpt)): return VBool(truthy(v))
+        if isinstance(ty, TAny) and isinstance(v, VOpt) and isinstance(v.val, VAny):
+            # an optional opaque value handed to an opaque parameter keeps its identity (None is one more opaque value)
+            return VAny(z3.If(v.isnone, z3.Const('any$None', AnySort), v.val.term))
         if isinstance(ty, TAny) and not isinstance(v, VAny): return VAny(z3.FreshConst(AnySort, 'any'))
         return v
 
@@ -763,6 +766,15 @@ class Exec:
         outs = m(s, st)
         outs += self.ctx.raises
         self.ctx.raises = saved
+        ga = getattr(self.ctx.c, 'ghost_at', None)
+        if ga and not self.spec_mode and ga['after_line_containing'] in src(s, 400) and not isinstance(s, (ast.If, ast.For, ast.While, ast.With, ast.Try)):
+            # ghost instrumentation at a program point named by the contract: a ghost field update right after the statement (normal outcomes only)
+            for o in outs:
+                if o.kind != 'normal': continue
+                for target, expr in ga['update']:
+                    te = ast.parse(target, mode='eval').body
+                    base = self.spec_value(ast.unparse(te.value), o.state, o.state.env)
+                    heap_set(o.state, base, te.attr, self.spec_value(expr, o.state, o.state.env))
         if lib.BRIDGE:
             for o in outs: o.state.pc += lib.BRIDGE
             del lib.BRIDGE[:]
